@@ -385,6 +385,9 @@ MemoRequest ==
 CvFitCurve ==
   \E a \in ArgsOf("CvFitCurve", heap, depth) :
      Step([name |-> "CvFitCurve"] @@ a, heap, RetRel("ok", <<>>, "sem"))
+CvFitInRational ==   \* S.fit_curve(q) with S rational and q in S's space: the result is q as a function, error 0
+  \E a \in ArgsOf("CvFitInRational", heap, depth) :
+     Step([name |-> "CvFitInRational"] @@ a, heap, RetRel("ok", <<>>, "sem"))
 CvFitPoints ==
   \E a \in ArgsOf("CvFitPoints", heap, depth) :
      LET ok == Len(a.data) >= Npts(heap[a.obj].U) IN
@@ -434,7 +437,7 @@ Next == /\ depth < MaxDepth
            \/ CvEval \/ FnBasis \/ CvKnotInsert \/ CvDegreeIncrease \/ CvSplit
            \/ CvKnotRemove \/ CvDegreeDecrease \/ CvClean \/ CvJoin \/ CvArith \/ CvScalar
            \/ CvEq \/ CvCopy \/ CvFraction \/ CvSetCtrlpoints \/ CvSetWeights \/ CvSetKnotvector \/ CvSplitTake \/ KvConvert
-           \/ KvGen \/ CvDerivate \/ CvIntegrate \/ MemoRequest \/ CvFitCurve \/ CvFitPoints \/ CvFitFunction
+           \/ KvGen \/ CvDerivate \/ CvIntegrate \/ MemoRequest \/ CvFitCurve \/ CvFitInRational \/ CvFitPoints \/ CvFitFunction
            \/ GeoProject \/ GeoIntersect \/ IntegrateFn \/ GeoLength \/ GeoProjectOn \/ GeoIntersectCurved
 
 Spec == Init /\ [][Next]_vars
